@@ -40,6 +40,9 @@ var tmpls = []vlib.Tmpl{
 var uni = &vlib.Universe{Name: "sync", Tmpls: tmpls}
 var palette = []string{"eth1", "eth10", "eth1/1"}
 
+// palettes: the default one and key values of which two pairs read the same once joined ([x.y, x] / [x, y.x])
+var palettes = [][]string{{"eth1", "eth10", "eth1/1"}, {"a", "a b", "b a"}, {"a", "a/b", "b/a"}, {"a", "a_b", "b_a"}}
+
 type UpdSel struct {
 	Leaf vlib.LeafSel `json:"leaf"`
 	Form string       `json:"form"` // typed | string | json (blob at the top container) | llkey (leaf-list element sent as key)
@@ -61,6 +64,8 @@ type Case struct {
 	Workers  int   `json:"workers"`
 	Validate bool  `json:"validate"`
 	Order    []int `json:"order"` // completion order choices for gated cache writes
+	// Pal: index into palettes (0 = the default key values)
+	Pal int `json:"pal,omitempty"`
 	// Dev: the notifications come from a device model behind one of the real targets (nil = harness-fed script)
 	Dev *DevCase `json:"dev,omitempty"`
 }
@@ -194,6 +199,19 @@ var prop = vlib.Prop[*Case]{
 			c.Dev = genDev(t)
 		} else {
 			c.Script = genMsgs(t)
+		}
+		c.Pal = rapid.SampledFrom([]int{0, 0, 0, 0, 0, 1, 2, 3}).Draw(t, "palette")
+		if c.Pal > 0 && c.Dev == nil && rapid.Bool().Draw(t, "colliding-entries") {
+			// one notification carrying both entries of the two-key list (template 15 = plain/l2a/v)
+			m := Msg{Kind: "notif", Updates: []UpdSel{
+				{Leaf: vlib.LeafSel{T: 15, K: []int{1, 0}, V: rapid.IntRange(0, 2).Draw(t, "coll-v1")}, Form: "typed"},
+				{Leaf: vlib.LeafSel{T: 15, K: []int{0, 2}, V: rapid.IntRange(0, 2).Draw(t, "coll-v2")}, Form: "typed"}}}
+			at := rapid.IntRange(0, len(c.Script)).Draw(t, "coll-at")
+			c.Script = append(c.Script[:at:at], append([]Msg{m}, c.Script[at:]...)...)
+		}
+		if c.Pal > 0 && c.Dev != nil && rapid.Bool().Draw(t, "colliding-entries-dev") {
+			c.Dev.Initial = append(c.Dev.Initial,
+				UpdSel{Leaf: vlib.LeafSel{T: 15, K: []int{1, 0}, V: 0}, Form: "typed"}, UpdSel{Leaf: vlib.LeafSel{T: 15, K: []int{0, 2}, V: 1}, Form: "typed"})
 		}
 		c.Workers = rapid.SampledFrom([]int{1, 1, 2, 16}).Draw(t, "workers")
 		c.Validate = rapid.Bool().Draw(t, "validate")
@@ -375,6 +393,7 @@ func (m *syncModel) end() {
 }
 
 func Exec(c *Case) (nontrivial bool, labels []string, fail *vlib.Failure) {
+	palette = palettes[c.Pal%len(palettes)]
 	if c.Dev != nil {
 		return ExecDev(c)
 	}
